@@ -894,6 +894,8 @@ def fam_codec(cfg, rng):
     good = serialize(cfg.kind, vs)
     b = '' if good == '.' else good
     mode = rng.choice(['good', 'good', 'trunc', 'extend', 'flip', 'offset', 'toolong', 'vec', 'dirty', 'serde'])
+    if SIZES[cfg.kind] is None and n > 0 and rng.random() < 0.25:
+        mode = 'misaligned'
     if mode == 'trunc' and b:
         b = b[:2 * rng.randrange(len(b) // 2)]
     elif mode == 'extend':
@@ -906,6 +908,14 @@ def fam_codec(cfg, rng):
         delta = rng.choice([1, -1, 4, -4, 255, 1 << 16])
         old = int.from_bytes(bytes.fromhex(b[2 * p:2 * p + 8]), 'little')
         b = b[:2 * p] + ((old + delta) % 2 ** 32).to_bytes(4, 'little').hex() + b[2 * p + 8:]
+    elif mode == 'misaligned' and len(b) >= 8:
+        # variable-size items: every offset shifted by r = 1..3 and r stray bytes put between the offset table and the
+        # payload - self-consistent, but the first offset is no longer a multiple of 4 (or, with r = 4, k = 1 more
+        # "item" than there are payloads): never a canonical encoding
+        r = rng.choice([1, 2, 3, 1, 2, 3, 4])
+        tbl = 4 * n
+        offs = [int.from_bytes(bytes.fromhex(b[8 * k:8 * k + 8]), 'little') + r for k in range(n)]
+        b = ''.join(o.to_bytes(4, 'little').hex() for o in offs) + rng.choice(['00', 'ff', '07']) * r + b[2 * tbl:]
     elif mode == 'toolong':
         vs2 = h.vals(min(cfg.n + rng.randint(1, 3), 70))
         b = serialize(cfg.kind, vs2)
